@@ -141,7 +141,10 @@ def _gen_program_once(rng, *, futures, hooks, max_pre):
             style = rng.choice(["list", "list", "single", "none", "iter"])
             if not side and rng.random() < (0.5 if futures else 0.3):
                 side, style = [], "shared"
-            out.append({"op": "delay", "d": rng.choice(delays), "side": side, "side_style": style})
+            st = {"op": "delay", "d": rng.choice(delays), "side": side, "side_style": style}
+            if side is None and rng.random() < 0.2:
+                st["d_kind"] = rng.choice(["np", "sub"])  # numpy.float64 / a float subclass as the yielded delay
+            out.append(st)
         return out
 
     table = {}
@@ -212,6 +215,12 @@ def _gen_program_once(rng, *, futures, hooks, max_pre):
         base = rng.choice(times + [t + d for t in times for d in (1, 999, 1_000_000, NS)])
         end = max(0, base + rng.choice([0, 0, -1, 1, 5 * NS]))
     prog = {"n_ent": n_ent, "end_ns": end, "pre": pre, "sched_order": order, "table": table}
+    if futures and fut_names and times and rng.random() < 0.25:
+        # watchdogs: futures resolved from a control.on_time_advance hook once the clock passes a deadline
+        prog["watch"] = [
+            {"t": rng.choice(times) + rng.choice([0, 1, 999, 1000, 10**6, NS]), "f": rng.choice(fut_names), "v": new_value()}
+            for _ in range(rng.randrange(1, 4))
+        ]
     # a start_time other than the epoch (also far from it, where float seconds lose nanosecond resolution);
     # a few pre-run events then lie before the start and are not live
     # ... and beyond 2**53 ns (104 days), where nanoseconds no longer fit a float exactly (a Unix-epoch start_time)
@@ -222,6 +231,8 @@ def _gen_program_once(rng, *, futures, hooks, max_pre):
             spec["t"] += start if rng.random() < 0.93 else 0
         if end is not None:
             prog["end_ns"] = end + start
+        for w in prog.get("watch") or []:
+            w["t"] += start
     if prog["end_ns"] is None and rng.random() < 0.3:
         prog["explicit_infinity"] = True  # end_time=Instant.Infinity written out (the documented default)
     # the horizon given as Simulation(duration=seconds) instead of end_time=Instant (also with a start_time)
